@@ -1,7 +1,7 @@
 # Per-property configuration of bin/vcheck. One entry per claimed property.
 CHECKS = {}
 NOT_APPLICABLE = {}   # property id -> reason (only for properties that are not claimed)
-HOOK_COMMITS = ["591d0aa", "cd8c611", "81459e8", "b3ade5a", "5b8c4ec", "9b840f3", "69c0b79", "b31fb55"]     # /repo commits that add build-tag-guarded hooks
+HOOK_COMMITS = ["591d0aa", "cd8c611", "81459e8", "b3ade5a", "5b8c4ec", "9b840f3", "69c0b79", "b31fb55", "99c3958"]     # /repo commits that add build-tag-guarded hooks
 MANIFEST_NOTES = ("Every check is `bin/vcheck <id> quick|thorough`; VERIF_SEED selects the seeded case lists. "
                   "Verdicts are three-valued (VIOLATION / held / INCONCLUSIVE); known findings are in known_findings.json.")
 
